@@ -434,6 +434,23 @@ pub fn run(ctx: &mut Ctx) {
             &mut jobs,
         );
     }
+    // ---- SAFT-VRQ Mie with different Feynman-Hibbs orders per component (orders 1 and 2 cannot be combined; 0 with 1 can): the order of an unlike pair is a
+    // function of the two components, not of their positions
+    {
+        let p = zoo::vrq(&["hydrogen", "neon", "helium"], "aasen2019", Some("aasen2020_binary"));
+        let (recs, bin) = p.records();
+        let mut recs = recs.to_vec();
+        for (k, fh) in [(0usize, 1), (1, 0), (2, 1)] {
+            let mut v = serde_json::to_value(&recs[k]).unwrap();
+            v["model_record"]["fh"] = json!(fh);
+            recs[k] = serde_json::from_value(v).unwrap();
+        }
+        family_jobs(
+            Family::<SaftVRQMieParameters> { id: "saftvrqmie:h2(fh1)+ne(fh0)+he(fh1)".into(), recs, bin: bin.cloned(), build: Arc::new(|p| ResidualModel::SaftVRQMie(SaftVRQMie::new(Arc::new(p)))), build_opts: None, x: arr1(&[0.3, 0.5, 0.2]), tref: 40.0, zero_pad: true },
+            tier,
+            &mut jobs,
+        );
+    }
     // ---- PeTS
     {
         let recs = zoo::pets_records();
